@@ -74,6 +74,22 @@ fn cxfun(t: &mut Toks, cx: &mut Ctx) -> String {
     let a = get("asinh"); cx.check(close(a.sinh(), z, cond), "sinh(asinh z) != z");
     let a = get("acosh"); cx.check(close(a.cosh(), z, cond), "cosh(acosh z) != z");
     if d1 > 1e-3 { let a = get("atanh"); cx.check(close(a.tanh(), z, cond), "tanh(atanh z) != z"); }
+    // small arguments (1e-3 <= |z| <= 1/2): the odd functions f(z) = z + O(z^3) and their inverses are held to a
+    // RELATIVE accuracy, against their Maclaurin series and as right inverses (an absolute tolerance would let an
+    // error of relative size |z|^4 pass unseen near the origin)
+    if r >= 1e-3 && r <= 0.5 {
+        let odd = |k: usize, alt: bool| -> Option<(usize, f64)> { if k % 2 == 1 { Some(((k - 1) / 2, if alt && (k % 4 == 3) { -1.0 } else { 1.0 })) } else { None } };
+        let binom = |m: usize| -> f64 { (1..=m).map(|j| (2 * j - 1) as f64 / (2 * j) as f64).product::<f64>() };   // (2m)! / (4^m m!^2)
+        let rel = |cx: &mut Ctx, name: &str, v: Cmplx, e: Cmplx| cx.check(cabs(v - e) <= 1e-10 * cabs(e), &format!("{} differs from its series near the origin by more than 1e-10 relative", name));
+        rel(cx, "atanh", get("atanh"), series(z, |k| odd(k, false).map(|(_, sg)| sg / k as f64).unwrap_or(0.0)));
+        rel(cx, "atan", get("atan"), series(z, |k| odd(k, true).map(|(_, sg)| sg / k as f64).unwrap_or(0.0)));
+        rel(cx, "asin", get("asin"), series(z, |k| odd(k, false).map(|(m, sg)| sg * binom(m) / k as f64).unwrap_or(0.0)));
+        rel(cx, "asinh", get("asinh"), series(z, |k| odd(k, true).map(|(m, sg)| sg * binom(m) / k as f64).unwrap_or(0.0)));
+        rel(cx, "sin", get("sin"), series(z, |k| odd(k, true).map(|(_, sg)| sg / fact(k)).unwrap_or(0.0)));
+        rel(cx, "sinh", get("sinh"), series(z, |k| odd(k, false).map(|(_, sg)| sg / fact(k)).unwrap_or(0.0)));
+        for (name, v) in [("tanh(atanh z)", get("atanh").tanh()), ("tan(atan z)", get("atan").tan()), ("sin(asin z)", get("asin").sin()), ("sinh(asinh z)", get("asinh").sinh())] {
+            cx.check(cabs(v - z) <= 1e-10 * r, &format!("{} != z near the origin (relative error {:e})", name, cabs(v - z) / r)); }
+    }
     // reciprocal-argument inverses: on the stated domain 1e-3 <= |z| (for smaller |z| the argument 1/z
     // exceeds 1e3 and sqrt(1 - w^2) + i w cancels: rounding, class F, outside the claim)
     if nonzero && r >= 1e-3 {
